@@ -674,13 +674,14 @@ func checkVetoLast(c *Ctx, p *Prog, rule string) {
 	// either a bool (`if addtruecolor && …`) or one bit of a small set (`if amend&bit != 0 && …`)
 	var flag *ssa.Phi
 	var bit uint64
-	eachInstr(fn, func(in ssa.Instruction) {
-		st, ok := in.(*ssa.Store)
+	for _, d := range deepInstrs(p, fn, 2, nil) {
+		st, ok := d.in.(*ssa.Store)
 		if !ok {
-			return
+			continue
 		}
 		if ref, _, okR := fieldAddrRef(st.Addr); okR && ref.Name == "SetFgRGB" {
-			for _, g := range rawGuardsAt(st.Block()) {
+			// (the store itself, or the call of the helper that builds the amended copy)
+			for _, g := range rawGuardsAt(d.anchor.Block()) {
 				if phi, isPhi := g.Cond.(*ssa.Phi); isPhi && g.Positive && phi.Comment != "&&" && phi.Comment != "||" {
 					if b, isB := phi.Type().Underlying().(*types.Basic); isB && b.Kind() == types.Bool {
 						flag, bit = phi, 0
@@ -699,7 +700,7 @@ func checkVetoLast(c *Ctx, p *Prog, rule string) {
 				}
 			}
 		}
-	})
+	}
 	if flag == nil {
 		c.Undecided(rule, "LookupTerminfo:amendment-flag", p.pos(fn.Pos()), "the flag tested before the RGB strings are added was not found")
 		return
